@@ -13,6 +13,8 @@ A_NOTE = ('Trusted base: CrossHair 0.0.110 + z3 (its models of int/list/str and 
           'oracle in the harness. Counterexamples are re-run concretely without CrossHair before being reported.')
 A_TECH = 'CrossHair symbolic execution (z3) of the real functions over symbolic inputs within `pre:` bounds; reachability twin per condition; concrete replay of counterexamples'
 CHECKS = {
+    'C12': ('A', 'other', 'The ways a target can end times the kill phase times the signal times the first accessor form a table no test walks; the solver walks all of it on the real reporting code with the OS facts stubbed, and the future-resolved condition is what makes wait/as_completed terminate.', '3 C12'),
+    'C15': ('A', 'other', 'Loss of the traceback on a later hop or of args for exceptions with non-trivial constructors shows only for particular class/hop/re-raise combinations; all combinations of the catalogue are exhausted by the solver over real pickle round trips.', '3 C15'),
     'C03': ('A', 'other', 'Operator interactions form a program space; the check enumerates the operator skeletons and leaves elements and parameters symbolic, so boundary sizes (1, len, len+1), empty batches and parameter combinations are covered by the solver rather than by examples.', '3 C03'),
     'C19': ('A', 'other', 'Timing rules can only be checked exactly under a virtual clock; arrival gaps, batch size and wait are symbolic, and the virtual time of every yield is compared with the documented rule.', '3 C19'),
     'C17': ('B', 'model_checking', 'Loss, duplication, an unfinished consumer or a leaked end marker need particular interleavings of the token-queue operations of several consumers; the solver covers all of them for the listed numbers of suppliers, consumers, items and rounds (one listed known finding excluded by its signature).', '3 C17'),
